@@ -170,6 +170,10 @@ var templates = []struct {
 	{"coroutine_inner_loop", `local co = coroutine.create(function() while true do tick() end end) tick() coroutine.resume(co) while true do tick() end`, false},
 	{"coroutine_wrap_gen", `local g = coroutine.wrap(function() local i = 0 while true do i = i + 1 tick() coroutine.yield(i) end end) for v in g do tick() end`, false},
 	{"coroutine_nested", `local inner = coroutine.wrap(function() while true do tick() coroutine.yield() end end) local outer = coroutine.wrap(function() while true do inner() tick() coroutine.yield() end end) while true do outer() end`, false},
+	{"coroutine_created_in_coroutine", `local outer = coroutine.wrap(function() local inner = coroutine.wrap(function() while true do tick() coroutine.yield() end end) while true do inner() tick() end end) tick() outer()`, false},
+	{"coroutine_grandchild_loops", `local outer = coroutine.wrap(function() tick() local mid = coroutine.wrap(function() tick() local inner = coroutine.wrap(function() while true do tick() end end) inner() end) mid() end) tick() outer()`, false},
+	{"coroutine_orphan_inner", `local inner local outer = coroutine.wrap(function() inner = coroutine.wrap(function() while true do tick() coroutine.yield() end end) inner() return 1 end) outer() while true do inner() tick() end`, false},
+	{"coroutine_orphan_inner_spins", `local inner local outer = coroutine.wrap(function() inner = coroutine.wrap(function() coroutine.yield() while true do tick() end end) inner() return 1 end) outer() tick() inner()`, false},
 	{"coroutine_pcall_inside", `local co = coroutine.wrap(function() while true do pcall(function() tick() while true do end end) end end) tick() co()`, false},
 	{"table_build", `local t = {} local i = 0 while true do i = i + 1 t[i % 100 + 1] = {i} tick() end`, false},
 	{"closure_churn", `while true do local f = function() tick() return function() return 1 end end f()() end`, false},
